@@ -15,6 +15,9 @@ pub struct Case {
     pub perm_loggers: Vec<u16>,
     pub perm_appenders: Vec<u16>,
     pub targets: Vec<String>,
+    /// appenders (by declaration index) that report an error after recording the delivery
+    #[serde(default)]
+    pub failing: Vec<bool>,
 }
 
 pub fn strategy() -> impl Strategy<Value = Case> {
@@ -23,8 +26,9 @@ pub fn strategy() -> impl Strategy<Value = Case> {
         raw_targets(2..=6),
         prop::collection::vec(any::<u16>(), 8),
         prop::collection::vec(any::<u16>(), 5),
+        prop_oneof![2 => Just(vec![]), 1 => prop::collection::vec(prop::bool::weighted(0.4), 5)],
     )
-        .prop_map(|(raw, rt, pl, pa)| {
+        .prop_map(|(raw, rt, pl, pa, failing)| {
             let cfg = resolve(&raw);
             let mut targets: Vec<String> = rt
                 .iter()
@@ -36,6 +40,7 @@ pub fn strategy() -> impl Strategy<Value = Case> {
                 perm_loggers: pl,
                 perm_appenders: pa,
                 targets,
+                failing,
             }
         })
 }
@@ -64,11 +69,12 @@ pub fn permute(cfg: &LCfg, pl: &[u16], pa: &[u16]) -> LCfg {
 pub fn check(case: &Case, obs: &mut Obs) -> CaseResult {
     let cfg = &case.cfg;
     let sink = new_sink();
-    let config = match build_config(cfg, &sink, "") {
+    // errors go to a handler that only counts them (the default handler would write to stderr)
+    let config = match build_config_failing(cfg, &sink, "", &case.failing) {
         Ok(c) => c,
         Err(e) => return fail("C01:valid-config-rejected", format!("build() rejected a valid configuration: {}", e)),
     };
-    let logger = log4rs::Logger::new(config);
+    let logger = log4rs::Logger::new_with_err_handler(config, Box::new(|_e| {}));
     let cfg2 = permute(cfg, &case.perm_loggers, &case.perm_appenders);
     let sink2 = new_sink();
     let logger2 = match build_config(&cfg2, &sink2, "") {
@@ -122,12 +128,55 @@ pub fn check(case: &Case, obs: &mut Obs) -> CaseResult {
     obs.class_if(sh.textual_sibling, "textual-sibling");
     obs.class_if(case.targets.iter().any(|t| t.contains(":::") || t.ends_with(':') || t.starts_with(':') || (t.contains(':') && !t.contains("::"))), "stray-colon-target");
     obs.class_if(case.targets.iter().any(|t| t.is_empty()), "empty-target");
+    obs.class_if(case.failing.iter().any(|f| *f), "failing-appenders-in-the-chain");
     let _ = cfgtree::COMPS;
+    Ok(())
+}
+
+/// Structural scale: many appenders / loggers (sizes around powers of two), attachments at the high end.
+#[derive(Serialize, Deserialize, Debug, Clone)]
+pub struct Scale {
+    pub appenders: usize,
+    pub loggers: usize,
+}
+
+pub fn check_scale(c: &Scale, obs: &mut Obs) -> CaseResult {
+    let n = c.appenders;
+    let names: Vec<String> = (0..n).map(|i| format!("A{}", i)).collect();
+    let pickn = |idxs: &[usize]| -> Vec<String> { idxs.iter().filter(|i| **i < n).map(|i| names[*i].clone()).collect() };
+    let mut loggers = vec![];
+    for j in 0..c.loggers {
+        loggers.push(crate::model::route::LLogger { name: format!("m{}::x", j), level: 5, additive: j % 2 == 0, appenders: pickn(&[n - 1 - (j % n), j % n]) });
+    }
+    let cfg = LCfg { appenders: names.clone(), root_level: 5, root_appenders: pickn(&[n - 1, n / 2, 0, n.saturating_sub(2)]), loggers };
+    let sink = new_sink();
+    let config = build_config(&cfg, &sink, "").map_err(|e| Failure { sig: "C01:valid-config-rejected".into(), msg: e })?;
+    let logger = log4rs::Logger::new(config);
+    let mut targets = vec!["zzz".to_string()];
+    for j in [0usize, 1, c.loggers / 2, c.loggers.saturating_sub(1)] {
+        if j < c.loggers {
+            targets.push(format!("m{}::x::y", j));
+        }
+    }
+    for t in &targets {
+        with_record(t, log::Level::Info, "s", |r| logger.log(r));
+        let got = drain_multiset(&sink);
+        let want = cfg.route(t, log::Level::Info);
+        obs.sub_evals += 1;
+        ensure!(got == want, "C01:misrouted", "configuration with {} appenders and {} loggers: target {:?} delivered {:?}, routing prescribes {:?}", n, c.loggers, t, got, want);
+    }
+    obs.nontrivial = true;
+    obs.class(format!("appenders={}", n));
     Ok(())
 }
 
 pub fn run(run: &Run) {
     run.run_replays::<Case>("route", &check);
+    if run.worker.0 == 0 {
+        for (a, l) in [(255usize, 3usize), (256, 300), (257, 2), (65535, 2), (65536, 3), (65537, 4), (70_000, 70_000 / 7)] {
+            run.eval_one("scale", &Scale { appenders: a, loggers: l }, &check_scale);
+        }
+    }
     let n = run.tier.pick(3_000, 200_000);
     run.search("route", n, strategy(), &check);
 }
@@ -138,6 +187,7 @@ pub fn replay(part: &str, case: serde_json::Value) -> Option<CaseResult> {
             let c: Case = serde_json::from_value(case).ok()?;
             Some(check(&c, &mut Obs::default()))
         }
+        "scale" => Some(check_scale(&serde_json::from_value(case).ok()?, &mut Obs::default())),
         _ => None,
     }
 }
